@@ -41,6 +41,9 @@ pub fn run(
     let mut accepted: Vec<Vec<EdgeTraversal>> = vec![shortest_path.to_owned()];
     let mut iterations: u64 = 1; // number of times we call underlying search
 
+    // candidate routes found so far that have not been accepted (yet)
+    let mut candidates: Vec<(Vec<EdgeTraversal>, Cost)> = vec![];
+
     while accepted.len() < query.k {
         #[cfg(feature = "verif_hooks")]
         crate::verif::emit(crate::verif::Event::KspOuter {
@@ -52,9 +55,6 @@ pub fn run(
             break;
         }
 
-        let mut best_candidate: Option<(Vec<EdgeTraversal>, Cost)> = None;
-        let n_accepted = accepted.len();
-
         // build alternates off of most recently-picked accepted result
         let prev_accepted_path =
             accepted
@@ -64,32 +64,30 @@ pub fn run(
                     "at least one route should be in routes",
                 )))?;
 
-        // step through each index along the most recently-accepted path
-        for spur_idx in 0..prev_accepted_path.len().saturating_sub(2) {
+        // step through each vertex along the most recently-accepted path except the target.
+        // the root path holds the first spur_idx edges, it is empty when we spur at the source.
+        for spur_idx in 0..prev_accepted_path.len() {
             #[cfg(feature = "verif_hooks")]
             crate::verif::emit(crate::verif::Event::KspInner {
                 algorithm: "yens",
                 index: spur_idx,
             });
-            let spur_len: usize = spur_idx + 1;
             let mut cut_edges: HashSet<EdgeId> = HashSet::new();
-            let root_path = prev_accepted_path.iter().take(spur_len).collect_vec();
-            let spur_edge_traversal =
-                root_path
-                    .last()
-                    .ok_or(SearchError::InternalError(String::from(
-                        "root path is empty",
-                    )))?;
-            let spur_vertex_id = si
-                .directed_graph
-                .get_edge(&spur_edge_traversal.edge_id)?
-                .dst_vertex_id;
+            let root_path = prev_accepted_path.iter().take(spur_idx).collect_vec();
+            let spur_vertex_id = match root_path.last() {
+                None => query.source,
+                Some(spur_edge_traversal) => {
+                    si.directed_graph
+                        .get_edge(&spur_edge_traversal.edge_id)?
+                        .dst_vertex_id
+                }
+            };
 
             // cut frontier edges based on previous paths with matching root path
             for accepted_path in accepted.iter() {
-                let accepted_path_root = accepted_path.iter().take(spur_len).collect_vec();
+                let accepted_path_root = accepted_path.iter().take(spur_idx).collect_vec();
                 if same_path(&root_path, &accepted_path_root) {
-                    if let Some(cut_edge) = accepted_path.get(spur_idx + 1) {
+                    if let Some(cut_edge) = accepted_path.get(spur_idx) {
                         cut_edges.insert(cut_edge.edge_id);
                     }
                 }
@@ -148,42 +146,55 @@ pub fn run(
                 )?;
                 candidate_path.push(edge_traversal);
             }
-            let candidate_test_path: &Vec<&EdgeTraversal> = &candidate_path.iter().collect_vec();
-            // replace best candidate if current candidate is sufficiently dissimilar to every
-            // accepted route and improves on cost
-            let mut dissimilar = true;
+            // keep the candidate for this and for later iterations, unless we already have it
+            // or it is too similar to a route we have accepted
+            let candidate_test_path = candidate_path.iter().collect_vec();
+            let mut keep = !candidates
+                .iter()
+                .any(|(path, _)| same_path(&path.iter().collect_vec(), &candidate_test_path));
             for test_path in accepted.iter() {
-                let similar = similarity.clone().test_similarity(
-                    &test_path.iter().collect_vec(),
-                    candidate_test_path,
-                    &yens_si,
-                )?;
-                if similar {
-                    dissimilar = false;
+                if !keep {
                     break;
                 }
+                let similar = similarity.clone().test_similarity(
+                    &test_path.iter().collect_vec(),
+                    &candidate_test_path,
+                    si,
+                )?;
+                keep = !similar;
             }
-            if dissimilar {
-                let candidate_cost: Cost = candidate_test_path.iter().map(|e| e.total_cost()).sum();
-                match best_candidate {
-                    Some((_, best_cost)) if candidate_cost < best_cost => {
-                        best_candidate = Some((candidate_path.clone(), candidate_cost));
-                    }
-                    None => {
-                        best_candidate = Some((candidate_path.clone(), candidate_cost));
-                    }
-                    Some(_) => {}
-                }
+            if keep {
+                let candidate_cost: Cost = candidate_path.iter().map(|e| e.total_cost()).sum();
+                candidates.push((candidate_path, candidate_cost));
             }
         }
-        // the best candidate over all spur indices becomes the next accepted route
-        if let Some((ref best_path, _)) = best_candidate {
-            accepted.push(best_path.clone());
+
+        // the least-cost candidate becomes the next accepted route
+        let best_idx = candidates
+            .iter()
+            .enumerate()
+            .min_by(|(_, (_, a)), (_, (_, b))| a.cmp(b))
+            .map(|(idx, _)| idx);
+        let best_path = match best_idx {
+            Some(idx) => candidates.remove(idx).0,
+            // nothing left to build on
+            None => break,
+        };
+
+        // candidates that are too similar to the new route can no longer be accepted
+        let mut remaining = vec![];
+        for (candidate_path, candidate_cost) in candidates.into_iter() {
+            let similar = similarity.clone().test_similarity(
+                &best_path.iter().collect_vec(),
+                &candidate_path.iter().collect_vec(),
+                si,
+            )?;
+            if !similar {
+                remaining.push((candidate_path, candidate_cost));
+            }
         }
-        if accepted.len() == n_accepted {
-            // no spur of the latest route produced an alternative: nothing left to build on
-            break;
-        }
+        candidates = remaining;
+        accepted.push(best_path);
     }
 
     let result = SearchAlgorithmResult {
